@@ -83,9 +83,14 @@ def spec_panel(work, zones, tier, verdict):
     return out, n
 
 
+ANCIENT = set()       # names of zones in the class of the known finding "ancient-dst-zone"
+
+
 def classify(e, names):
     z = names.get(e.get("z"), "?")
     src = "shipped" if not z.startswith("gen/") else "generated"
+    if z in ANCIENT:
+        src = "ancient-dst-zone"
     k = e["e"]
     if e.get("ub") == 1:
         return "%s:%s:undefined-behaviour" % (k, src)
@@ -111,6 +116,8 @@ def run(pid, tier, seed):
         verdict.infra_failure("build failed: %s" % str(e)[-400:])
         return verdict.finish(_evidence(pid, tier, seed, t0, sw, 0, 0, 0, [], {}, assumptions))
     zl, zones, nship, ngen = corpus(work, tier, seed)
+    ANCIENT.clear()
+    ANCIENT.update(n for n, p in zones if tzgen.is_ancient_dst(open(p, "rb").read()))
     panel, npanel = spec_panel(work, zones, tier, verdict)
     nsh = max(2, V.NCPU - 2)
     dr = V.run_driver(exe, [zl, os.path.join(work, "t"), nsh, seed, tier, cfgd["fam"], panel], timeout=3000)
